@@ -21,8 +21,12 @@ SeqRange(s) == {s[i] : i \in 1..Len(s)}
 SelectIdx(s, P(_)) == {i \in 1..Len(s) : P(s[i])}
 
 (* batchAddPlayers(joins): joins is a sequence of [id, seat, chips]; seat = -1 asks for a random seat.
-   pick(id) is the seat a random placement gives that id (any injective choice of empty seats). *)
-BatchAddOutcomes(st, joins) ==
+   The code does it in two phases with the verif hook point members.add.mid in between:
+     Add1  duplicate check on the table's list, AssignSeats for the fixed seats, RandomAssignSeats for the others
+           (a refused random part gives the fixed seats back)           -> outcome [res, st = seat manager]
+     Add2  reads each newcomer's seat back from the seat manager, appends to the list, mirrors "no chips".
+   Sequentially (engine lock held throughout) the batch is Add1 ; Add2 -- BatchAddOutcomes; Conc.tla interleaves them. *)
+Add1(st, joins) ==
   LET ids == {joins[i].id : i \in 1..Len(joins)}
       dup == Cardinality(ids) # Len(joins) \/ ids \cap MIds(st) # {}
       fixedI == {i \in 1..Len(joins) : joins[i].seat # -1}
@@ -31,21 +35,26 @@ BatchAddOutcomes(st, joins) ==
       randIds == {joins[i].id : i \in randI}
       m == [a \in fixedIds |-> joins[CHOOSE i \in fixedI : joins[i].id = a].seat]
       A1 == IF fixedI = {} THEN {R("ok", st.sm)} ELSE AssignOutcomes(st.sm, m)
-  IN IF dup THEN {MR("ErrDuplicatePlayers", st)}
+  IN IF dup THEN {R("ErrDuplicatePlayers", st.sm)}
      ELSE UNION {
-       IF o1.res # "ok" THEN {MR(o1.res, st)}
-       ELSE UNION {
-         IF o2.res # "ok" THEN {MR(o2.res, st)}            \* the fixed seats are given back
-         ELSE LET sm2 == o2.st
-                  seatOf(a) == SeatOf(sm2, a)
-                  sm3 == [sm2 EXCEPT !.seat = [s \in SeatsOf(sm2) |->
-                            IF \E i \in 1..Len(joins) : joins[i].id = sm2.seat[s].id /\ joins[i].chips <= 0
-                            THEN [sm2.seat[s] EXCEPT !.chips = FALSE] ELSE sm2.seat[s]]]
-              IN {MR("ok", [st EXCEPT !.sm = sm3,
-                                       !.players = st.players \o [i \in 1..Len(joins) |->
-                                           [id |-> joins[i].id, seat |-> seatOf(joins[i].id), bank |-> joins[i].chips, in |-> FALSE]]])}
-         : o2 \in (IF randI = {} THEN {R("ok", o1.st)} ELSE RandomAssignOutcomesN(o1.st, Cardinality(randI), randIds)) }
+       IF o1.res # "ok" THEN {R(o1.res, st.sm)}
+       ELSE { IF o2.res # "ok" THEN R(o2.res, st.sm)            \* the fixed seats are given back
+              ELSE R("ok", o2.st)
+            : o2 \in (IF randI = {} THEN {R("ok", o1.st)} ELSE RandomAssignOutcomesN(o1.st, Cardinality(randI), randIds)) }
        : o1 \in A1 }
+
+Add2(st, joins) ==
+  IF \E i \in 1..Len(joins) : ~Seated(st.sm, joins[i].id) THEN MR("ErrPlayerNotFound", st)     \* GetSeatID fails (only when interleaved)
+  ELSE LET sm2 == st.sm
+           sm3 == [sm2 EXCEPT !.seat = [s \in SeatsOf(sm2) |->
+                     IF \E i \in 1..Len(joins) : joins[i].id = sm2.seat[s].id /\ joins[i].chips <= 0
+                     THEN [sm2.seat[s] EXCEPT !.chips = FALSE] ELSE sm2.seat[s]]]
+       IN MR("ok", [st EXCEPT !.sm = sm3,
+                             !.players = st.players \o [i \in 1..Len(joins) |->
+                                 [id |-> joins[i].id, seat |-> SeatOf(sm2, joins[i].id), bank |-> joins[i].chips, in |-> FALSE]]])
+
+BatchAddOutcomes(st, joins) ==
+  { IF a.res # "ok" THEN MR(a.res, st) ELSE Add2([st EXCEPT !.sm = a.st], joins) : a \in Add1(st, joins) }
 
 ReserveOutcomes(st, id, seat, chips) ==
   IF id \in MIds(st)
@@ -77,6 +86,24 @@ RedeemOutcome(st, id, chips) ==
   IF id \notin MIds(st) THEN MR("ErrTablePlayerNotFound", st)
   ELSE LET b == st.players[MIdx(st, id)].bank + chips IN
        MR("ok", [st EXCEPT !.players[MIdx(st, id)].bank = b, !.sm = SetChipsF(st.sm, id, b > 0).st])
+
+(* ---- the serial specification concurrent batches are linearised against (ConcTrace: recorded batches of the real
+   engine; Conc: every interleaving of the lock-level model).  An op is a record with fields op, id, seat, chips, ids
+   (sequence), joins (sequence of [id, seat, chips]), pairs (sequence of [id, seat]: a bare AssignSeats map), res. ---- *)
+MOut(st, o) ==
+  CASE o.op = "reserve" -> ReserveOutcomes(st, o.id, o.seat, o.chips)
+    [] o.op = "leave" -> {LeaveF(st, o.ids)}
+    [] o.op = "update" -> UpdateOutcomes(st, o.joins, o.ids)
+(* a partial state is compatible with the final one when every player of it that is still there at the end sits where he sits at the end *)
+(* (a pruning of the search only; players that some call of the batch removes may sit elsewhere when they come back) *)
+Leavers(ops) == UNION {{ops[i].ids[j] : j \in 1..Len(ops[i].ids)} : i \in {x \in 1..Len(ops) : ops[x].op \in {"leave", "update"}}}
+MCompat(st, post, ops) == \A i \in 1..Len(st.players) :
+    (st.players[i].id \in MIds(post) /\ st.players[i].id \notin Leavers(ops)) => post.players[MIdx(post, st.players[i].id)].seat = st.players[i].seat
+RECURSIVE MLin(_, _, _, _)
+MLin(st, rem, ops, post) ==
+  IF rem = {} THEN st = post
+  ELSE \E i \in rem : \E o \in MOut(st, ops[i]) :
+         o.res = ops[i].res /\ MCompat(o.st, post, ops) /\ MLin(o.st, rem \ {i}, ops, post)
 
 (* ---- what C03 states, on a membership state -------------------------------------------------- *)
 MConsistent(st) ==
